@@ -314,7 +314,23 @@ func pinnedHistory(g *wsclient.Gen, seed int64) *history {
 	}}
 }
 
-const numPinned = 1
+// stormHistory (pinned cases 1-4, one per driver shard): a stress history -
+// many rounds of "subscribe x4, one write invalidating all, and within +-150 us
+// the pipelined unsubscribes, each followed at once by a subscribe of the same
+// id to another query" (Rerunner.Stop racing the wake-up of a re-run).
+func stormHistory(idx int, g *wsclient.Gen, seed int64) *history {
+	cfg := wsclient.Config{Seed: seed, MaxSubs: 4, MinRerunUS: []int{200, 200, 100, 400}[idx-1], DefMode: wsclient.ModeReplace,
+		AlwaysSpawn: idx%2 == 0}
+	a := g.AddOp(wsclient.Op{Cell: "n", Val: int64(2000)})
+	b := g.AddOp(wsclient.Op{Cell: "n", Val: int64(2001)})
+	c := g.AddOp(wsclient.Op{Cell: "n", Val: int64(2002)})
+	return &history{gen: g, Cfg: cfg, Steps: []wsclient.Step{{Kind: "storm", N: stormRounds, Landing: []int{a, b, c}, Resub: idx != 1}}}
+}
+
+// stormRounds is set by TestCheck from the tier.
+var stormRounds = 600
+
+const numPinned = 5
 
 // classStaleClose: see FINDINGS.md.
 const classStaleClose = "stale-async-close"
@@ -385,7 +401,7 @@ func TestCheck(t *testing.T) {
 	run := vlib.Start(t, "C02", "exploration")
 	defer run.Finish()
 	run.Rule("histories over one websocket connection (scripted JSONSocket) against a schemabuilder schema over a mutable store: 14-40 steps of subscribe (ids from a pool of 5, reused after unsubscribe; 1-6 fields over scalars, nullable object, keyed lists (nested), unkeyed object/scalar/nested lists, unions with and without key and a union mixing a key-less and a keyed member, union lists, a live-query field (public reactive.Cache, registers then may fail), a nullable keyed object, a keyed list of BY-VALUE structs holding a slice (non-comparable sources) with an Expensive field, slow and Expensive fields - also on list elements and on the nullable object, with interned source objects so that the reactive cache can hit), " +
-		"one third of the subscriptions use a document with variables ($tag, and $k selecting which cell a field reads), whose text is re-used verbatim by later subscriptions with different variable values, subscribe with a live id, unsubscribe (live / unknown id), mutate (own id namespace), echo, direct writes, write bursts, gate steps (a resolver of an in-flight run is held after AddDependency or after reading while 1-3 further writes, optionally an unsubscribe or a mutation, land), leave/change/return/change sequences for one item (out of the keyed list or the nullable object and back), 0/1/3/5/6/7/9 pass-through middlewares registered with conn.Use (some pausing before/after next), transient resolver failures on re-runs (plain error, safe error, errors wrapping context.Canceled / DeadlineExceeded of a resolver-owned context, safe error around one) followed by recovery, unsubscribe-all sent a fraction of the write-then-read delay after a write that invalidates an idle subscription (reactive.WriteThenReadDelay is 0 in half of the histories, 0.5-3 ms in the rest), plus 0-2 writes injected at named hook points; case 0 is a pinned history (unsubscribe during an in-flight run, id re-subscribed while the run's own asynchronous close is pending); " +
+		"one third of the subscriptions use a document with variables ($tag, and $k selecting which cell a field reads), whose text is re-used verbatim by later subscriptions with different variable values, subscribe with a live id, unsubscribe (live / unknown id), mutate (own id namespace), echo, direct writes, write bursts, gate steps (a resolver of an in-flight run is held after AddDependency or after reading while 1-3 further writes, optionally an unsubscribe or a mutation, land), leave/change/return/change sequences for one item (out of the keyed list or the nullable object and back), 0/1/3/5/6/7/9 pass-through middlewares registered with conn.Use (some pausing before/after next), transient resolver failures on re-runs (plain error, safe error, errors wrapping context.Canceled / DeadlineExceeded of a resolver-owned context, safe error around one) followed by recovery, unsubscribe-all sent a fraction of the write-then-read delay after a write that invalidates an idle subscription (reactive.WriteThenReadDelay is 0 in half of the histories, 0.5-3 ms in the rest), plus 0-2 writes injected at named hook points; cases 1-4 are stress histories (600 rounds, thorough 4000: subscribe x4, one invalidating write and, within +-150 us, pipelined unsubscribes each followed by a same-id subscribe to another query); case 0 is a pinned history (unsubscribe during an in-flight run, id re-subscribed while the run's own asynchronous close is pending); " +
 		"cells notify by Invalidate-and-replace, Strobe, or per-read resources (seeded per cell); seeded pacing and yield-hook perturbation. " +
 		"Non-trivial = >= 2 writes logged while a subscription execution was in flight AND >= 1 non-initial update with a structural delta (reorder / removal / object, list or null replacement). Distinct = step-kind sequence + set of non-initial delta shapes.")
 	run.Assume("store cells follow the discipline AddDependency(resource) then read; writers change the value then Invalidate/Strobe; a resource released by its last dependant is replaced (thunder releases = permanently invalidates it)")
@@ -394,6 +410,7 @@ func TestCheck(t *testing.T) {
 	run.Assume("a subscription the server ended (logger Unsubscribe) without the client's unsubscribe, without an error envelope and without a close is still live for the client and must converge")
 	run.Assume("vlib.MergeTS is a faithful port of client/src/merge.ts")
 	n := run.N(120, 1500)
+	stormRounds = run.N(600, 4000)
 	agg := vlib.NewHitAgg()
 	defer agg.Report(run)
 	run.Each(n, 1, func(i int) {
@@ -406,8 +423,10 @@ func runCase(run *vlib.Run, agg *vlib.HitAgg, i int) {
 	r := run.Rand("hist", i)
 	g := wsclient.NewGen(run.Rand("data", i))
 	var h *history
-	if i < numPinned {
+	if i == 0 {
 		h = pinnedHistory(g, run.Seed()*1000003+int64(i))
+	} else if i < numPinned {
+		h = stormHistory(i, g, run.Seed()*1000003+int64(i))
 	} else {
 		h = genHistory(r, g, run.Seed()*1000003+int64(i))
 	}
